@@ -3,6 +3,9 @@
 import json, subprocess
 
 CHECKS = {
+ "C11": dict(level="exploration", design="§3 C11", technique="exhaustive enumeration of pairs of in-order streams x every interleaving x window parameters x policies x static data on real two-window RSP engines, per-window probe windows + BGP evaluation as oracle",
+   text="Two-window engines (SingleThread; Wait and Steal; with/without static data; blocks sharing a predicate, disjoint predicates, blocks sharing a join variable; (width,slide) pairs) are fed every interleaving of two in-order streams of <=3 items each; every emitted row, restricted to one WINDOW block's variables, must be an answer of that block over some content that a probe window fed only that window's stream has reported so far, and its static part an answer over the static data alone.",
+   note="MultiThread not quantified by the property; 'reported so far' taken generously; the shared-store defect is a listed known finding scoped to rows explained by the other window's items."),
  "C05": dict(level="exploration", design="§3 C05", technique="bounded-exhaustive enumeration of (program, ordered fact list) x four materialisation strategies x two runs on the real Reasoner, naive stratified least-fixpoint reference as oracle",
    text="2 933 programs (thorough 4 027: every canonical 1- and 2-premise rule body, 3-premise bodies, numeric/term filters, one negated atom, recursive / constant / variable-predicate / two-conclusion heads, every ordered pair of a 40-rule core incl. mutually recursive ones) x every fact set of <=2 facts (symmetry-reduced) in every insertion order + curated chains/cycles/diamonds: infer_new_facts_naive, _semi_naive, _semi_naive_parallel and provenance(Boolean) must each leave exactly the least (stratified) model in the store, return only model facts, and derive nothing on a second run.",
    note="Every failure is tagged with the reference component whose omission reproduces the observed store (explained_by=...), which scopes the known findings narrowly; filter-meets-non-numeric cases where the statement is silent are counted, not judged."),
@@ -62,7 +65,7 @@ CHECKS = {
 # checks that exist but must not be claimed yet (red on the unchanged tree until a fix/finding lands)
 PENDING = {}
 
-NOT_YET = {'C11': 'check under construction in this session (multi-window RSP); nothing is claimed for it yet'
+NOT_YET = {
 }
 
 def main():
